@@ -40,7 +40,7 @@ def confirm(ob, call, rep):
 
 
 def build(thorough):
-    T = 900 if thorough else 200
+    T = 900 if thorough else 300
     obs = []
     # ---- (1) row splitting
     obs.append(Ob('rowsplit[len<=3]', H, 'rowsplit', T, env=dict(VH_ROWMAX=3)))
@@ -49,6 +49,8 @@ def build(thorough):
                       env=dict(VH_ROWMAX=4, VH_ROWLEN=4, VH_ROWFIRST=i)))
         if thorough:
             for j in range(ROWALPHA_N):
+                if (i, j) == (4, 5):
+                    continue    # space followed by TAB: outside the claim (error case, obligation prefilter_spacetab)
                 obs.append(Ob(f'rowsplit[len=5,first={i},second={j}]', H, 'rowsplit', T,
                               env=dict(VH_ROWMAX=5, VH_ROWLEN=5, VH_ROWFIRST=i, VH_ROWSECOND=j)))
     # ---- (2) prefilter
@@ -58,12 +60,14 @@ def build(thorough):
         if thorough and c in ('#', '@'):
             cases += [(f'len=5,first={f}', dict(VH_IGN=c, VH_PREMAX=5, VH_PRELEN=5, VH_PREFIRST=f)) for f in range(6)]
         for tag, e in cases:
-            obs.append(Ob(f'prefilter_comments[ign={n},{tag}]', H, 'prefilter_comments', T, env=e))
+            nl_first = e.get('VH_PREFIRST') == 4    # text starts with a newline = blank first line
+            if not nl_first:
+                obs.append(Ob(f'prefilter_comments[ign={n},{tag}]', H, 'prefilter_comments', T, env=e))
+                obs.append(Ob(f'prefilter_lastline[ign={n},kind=data,{tag}]', H, 'prefilter_lastline', T,
+                              env=dict(e, VH_LASTKIND='data')))
             obs.append(Ob(f'prefilter_spacetab[ign={n},{tag}]', H, 'prefilter_spacetab', T, env=e))
             obs.append(Ob(f'prefilter_blank[ign={n},pos=last,{tag}]', H, 'prefilter_blank', T,
                           env=dict(e, VH_BLANKPOS='last')))
-            obs.append(Ob(f'prefilter_lastline[ign={n},kind=data,{tag}]', H, 'prefilter_lastline', T,
-                          env=dict(e, VH_LASTKIND='data')))
         # regions of findings C and D (exactly the complement of the case split above)
         e = dict(VH_IGN=c, VH_PREMAX=5 if thorough else 4)
         obs.append(Ob(f'prefilter_blank[ign={n},pos=inner]', H, 'prefilter_blank', T,
